@@ -166,6 +166,47 @@ func cmdRaceMix(args []string) {
 			}
 		}(c)
 	}
+	for pc := 0; pc < 3; pc++ { // pattern clients: a recurring stream of more distinct patterns than any pattern cache holds
+		wg.Add(1)
+		go func(pc int) {
+			defer wg.Done()
+			i := pc * 400
+			for {
+				conn, err := net.DialTimeout("tcp", fmt.Sprintf("127.0.0.1:%d", port), 200*time.Millisecond)
+				if err != nil {
+					select {
+					case <-stop:
+						return
+					case <-time.After(time.Millisecond):
+					}
+					continue
+				}
+				rd := bufio.NewReader(conn)
+				for {
+					select {
+					case <-stop:
+						conn.Close()
+						return
+					default:
+					}
+					i++
+					conn.SetDeadline(time.Now().Add(300 * time.Millisecond))
+					if _, err := conn.Write(request("KEYS", fmt.Sprintf("k%d*", i%1300))); err != nil {
+						break
+					}
+					// (the reply is an array: read its header and elements loosely - only the traffic matters here)
+					if _, err := rd.ReadString('\n'); err != nil {
+						break
+					}
+					for rd.Buffered() > 0 {
+						rd.ReadString('\n')
+					}
+					cnt.patterns.Add(1)
+				}
+				conn.Close()
+			}
+		}(pc)
+	}
 	wg.Add(1)
 	go func() { // registry enumeration
 		defer wg.Done()
